@@ -34,6 +34,21 @@ def K(fi: FuncInfo, what: str) -> str:
     return f"{fi.module.name}:{fi.qualname}:{what}"
 
 
+def fact_first(chk, tag: str, where: str, why: Optional[str]) -> bool:
+    """Fact-level rules (checks/c01e.py) run first; True when they decided.  Otherwise a note is recorded and the caller
+    falls back to the pinned-form reading."""
+    decided = chk.__dict__.setdefault("facts_decided", set())
+    if why is None:
+        decided.add(tag)
+        return True
+    chk.ok("fact-level", where, f"{tag}: fact-level evaluation not possible ({why[:160]}); falling back to the pinned forms")
+    return False
+
+
+def decided(chk, tag: str) -> bool:
+    return tag in chk.__dict__.get("facts_decided", set())
+
+
 # ------------------------------------------------------------------------------------------------
 # L6 alphabets
 # ------------------------------------------------------------------------------------------------
@@ -130,7 +145,37 @@ def check_alphabet(chk) -> None:
         chk.violation("decoder-stacks-fresh", post.where, "all bracket types share one stack object: positions of different bracket types are mixed", K(post, "begins"), found=norm(b_expr))
     else:
         chk.error("decoder-stacks-fresh", post.where, f"construction of the per-type stacks not recognised: {norm(b_expr) if b_expr is not None else None}")
-    # FCFS availability table as long as the alphabet
+    # MultiStrandDotBracket structure class = '.' + all bracket characters
+    ms = repo.func(MOD, "MultiStrandDotBracket.from_string")
+    chk.note_function(ms)
+    pats = [c.args[0] for c in astq.calls(ms.node, "finditer") if c.args]
+    if not pats or not isinstance(pats[0], ast.Constant):
+        chk.error("alphabet-multistrand", ms.where, "regular expression of from_string not found")
+    else:
+        classes = regex_classes(pats[0].value)
+        want_cls = set("." + REF_OPEN + REF_CLOSE)
+        hit = [c for c in classes if c == want_cls]
+        chk.expect(
+            bool(hit),
+            "alphabet-multistrand",
+            ms.site(pats[0]),
+            "structure character class of MultiStrandDotBracket.from_string = '.' + the 60 bracket characters",
+            "no character class of the regular expression equals '.' + the 60 bracket characters: some notation produced by the library would not be read back",
+            K(ms, "structure-class"),
+            found=["".join(sorted(c)) for c in classes],
+        )
+
+
+def check_fcfs_levels_pinned(chk) -> None:
+    """Pinned form: the FCFS availability table is as long as the encoder's bracket table."""
+    repo = chk.repo
+    mk = repo.func(MOD, "BpSeq.__make_dot_bracket")
+    fcfs = repo.func(MOD, "BpSeq.fcfs")
+    try:
+        brackets = local_value(chk, mk, "brackets")
+    except AnalysisError:
+        brackets = None
+    ok = isinstance(brackets, list)
     av = astq.single_def(fcfs.node, "available")
     n_av = None
     if av is not None:
@@ -159,25 +204,6 @@ def check_alphabet(chk) -> None:
             K(fcfs, "available-length"),
             expected=len(brackets) if ok else None,
             found=n_av,
-        )
-    # MultiStrandDotBracket structure class = '.' + all bracket characters
-    ms = repo.func(MOD, "MultiStrandDotBracket.from_string")
-    chk.note_function(ms)
-    pats = [c.args[0] for c in astq.calls(ms.node, "finditer") if c.args]
-    if not pats or not isinstance(pats[0], ast.Constant):
-        chk.error("alphabet-multistrand", ms.where, "regular expression of from_string not found")
-    else:
-        classes = regex_classes(pats[0].value)
-        want_cls = set("." + REF_OPEN + REF_CLOSE)
-        hit = [c for c in classes if c == want_cls]
-        chk.expect(
-            bool(hit),
-            "alphabet-multistrand",
-            ms.site(pats[0]),
-            "structure character class of MultiStrandDotBracket.from_string = '.' + the 60 bracket characters",
-            "no character class of the regular expression equals '.' + the 60 bracket characters: some notation produced by the library would not be read back",
-            K(ms, "structure-class"),
-            found=["".join(sorted(c)) for c in classes],
         )
 
 
@@ -288,6 +314,15 @@ def regions_term(chk, fi: FuncInfo) -> Tuple[SymEnv, Any]:
 
 
 def check_conflict_graph(chk, fi: FuncInfo) -> None:
+    """The conflict graph of an encoder: fact level first (checks/c01e.py), pinned form as the fallback."""
+    from checks import c01e
+
+    if fact_first(chk, f"conflict-graph:{fi.qualname}", fi.where, c01e.graph_fact(chk, fi)):
+        return
+    check_conflict_graph_pinned(chk, fi)
+
+
+def check_conflict_graph_pinned(chk, fi: FuncInfo) -> None:
     """convert_to_dot_bracket / all_dot_brackets: all unordered region pairs examined, edge iff crossing, both directions."""
     chk.note_function(fi)
     env, R = regions_term(chk, fi)
@@ -399,6 +434,10 @@ def check_stems(chk) -> None:
         expected=sorted(want),
         found=sorted(got_norm),
     )
+    from checks import c01e
+
+    if fact_first(chk, "stems", st.where, c01e.stems_fact(chk)):
+        return
     # iteration source
     fors = [n for n in astq.walk_no_nested(st.node) if isinstance(n, ast.For)]
     if len(fors) != 1:
@@ -542,7 +581,14 @@ def check_regions(chk) -> None:
     """L2: every region triple is (first 5' index, its partner, length) of one stem."""
     repo = chk.repo
     n = 0
-    for q in ("BpSeq.__regions", "BpSeq.fcfs"):
+    from checks import c01e
+
+    todo = ["BpSeq.__regions", "BpSeq.fcfs"]
+    if fact_first(chk, "regions", repo.func(MOD, "BpSeq.__regions").where, c01e.regions_fact(chk)):
+        todo.remove("BpSeq.__regions")
+    if decided(chk, "fcfs") or (not chk.__dict__.get("fcfs_tried") and fact_first(chk, "fcfs", repo.func(MOD, "BpSeq.fcfs").where, _fcfs_fact_once(chk))):
+        todo.remove("BpSeq.fcfs")
+    for q in todo:
         fi = repo.func(MOD, q)
         chk.note_function(fi)
         comps = [
@@ -590,6 +636,16 @@ def check_regions(chk) -> None:
             else:
                 chk.error("region-triple", fi.where, "construction of the region list not recognised")
     chk.floor("region-triple", 2)
+
+
+def _fcfs_fact_once(chk) -> Optional[str]:
+    """BpSeq.fcfs is evaluated once per run (first-fit, regions, result, number of levels)."""
+    from checks import c01e
+
+    if "fcfs_why" not in chk.__dict__:
+        chk.__dict__["fcfs_tried"] = True
+        chk.__dict__["fcfs_why"] = c01e.fcfs_fact(chk, N_LEVELS)
+    return chk.__dict__["fcfs_why"]
 
 
 # ------------------------------------------------------------------------------------------------
@@ -936,6 +992,10 @@ def check_from_dotbracket(chk) -> None:
     repo = chk.repo
     fi = repo.func(MOD, "BpSeq.from_dotbracket")
     chk.note_function(fi)
+    from checks import c01e
+
+    if fact_first(chk, "from-dotbracket", fi.where, c01e.from_dotbracket_fact(chk)):
+        return
     env = SymEnv(fi.node)
     p = fi.node.args.args[0].arg
     seq = ("attr", "sequence", ("param", p))
@@ -1055,6 +1115,17 @@ def covers_all_earlier(it: ast.expr, i_name: str) -> bool:
 
 
 def check_fcfs(chk) -> None:
+    """FCFS: fact level first (first-fit on every order type of a few arcs), pinned form as the fallback."""
+    fi = chk.repo.func(MOD, "BpSeq.fcfs")
+    if decided(chk, "fcfs"):
+        return
+    if not chk.__dict__.get("fcfs_tried") and fact_first(chk, "fcfs", fi.where, _fcfs_fact_once(chk)):
+        return
+    check_fcfs_levels_pinned(chk)
+    check_fcfs_pinned(chk)
+
+
+def check_fcfs_pinned(chk) -> None:
     repo = chk.repo
     fi = repo.func(MOD, "BpSeq.fcfs")
     chk.note_function(fi)
@@ -1219,7 +1290,10 @@ def check_text_forms(chk) -> None:
     pi = repo.func(MOD, "BpSeq.__post_init__")
     chk.note_function(pi)
     t = norm(pi.node)
-    chk.expect("for i, _, j in self.entries:" in t and "if j != 0:" in t and "self.pairs[i] = j" in t and "self.pairs[j] = i" in t, "bpseq-pairs", pi.where, "pairs maps both ends of every paired entry", "BpSeq.pairs is not filled symmetrically from the paired entries", K(pi, "pairs"))
+    from checks import c01e
+
+    if not fact_first(chk, "bpseq-pairs", pi.where, c01e.post_init_fact(chk)):
+        chk.expect("for i, _, j in self.entries:" in t and "if j != 0:" in t and "self.pairs[i] = j" in t and "self.pairs[j] = i" in t, "bpseq-pairs", pi.where, "pairs maps both ends of every paired entry", "BpSeq.pairs is not filled symmetrically from the paired entries", K(pi, "pairs"))
     ds = repo.func(MOD, "DotBracket.from_string")
     chk.note_function(ds)
     t = norm(ds.node)
@@ -1256,20 +1330,29 @@ def run(chk) -> None:
     # third encoder: the enumeration (components, permutations, first-fit, product) - shared with C16
     from checks import c16
 
-    fi_all = repo.func(MOD, "BpSeq.all_dot_brackets")
-    c16.check_components(chk, fi_all)
-    c16.check_permutation_greedy(chk, fi_all)
-    c16.check_product(chk, fi_all)
+    c16.check_enumeration_stages(chk)
     check_fill(chk)
     check_decoder(chk)
     check_from_dotbracket(chk)
     check_text_forms(chk)
-    chk.floor("conflict-predicate", 3)
+    # an encoder must read the same conflict graph / regions whatever was asked of the object before
+    from checks import c01e
+
+    why = c01e.history_fact(chk, c01e.ENCODER_QUERIES)
+    if why is not None:
+        chk.ok("history-independent", "-", f"call histories not evaluable ({why[:120]}); writes to shared state are C12's effect analysis")
+    n_pred = 3 - sum(1 for t in ("conflict-graph:BpSeq.convert_to_dot_bracket", "conflict-graph:BpSeq.all_dot_brackets", "fcfs") if decided(chk, t))
+    if n_pred > 0:
+        chk.floor("conflict-predicate", n_pred)
     chk.floor("fill-stores", 1)
     chk.floor("alphabet-agree", 1)
     # every encoder returns through the verified fill
-    for q in ("BpSeq.convert_to_dot_bracket", "BpSeq.all_dot_brackets"):
+    for q, tag in (("BpSeq.convert_to_dot_bracket", "uses-fill"), ("BpSeq.all_dot_brackets", "enumeration")):
         fi = repo.func(MOD, q)
+        if tag == "enumeration" and decided(chk, tag):
+            continue
+        if tag == "uses-fill" and fact_first(chk, tag, fi.where, c01e.uses_fill_fact(chk)):
+            continue
         n = len([c for c in ast.walk(fi.node) if isinstance(c, ast.Call) and isinstance(c.func, ast.Attribute) and c.func.attr.endswith("__make_dot_bracket")])
         chk.expect(n >= 1, "encoder-uses-fill", fi.where, f"{n} notation(s) built by the verified fill", "no notation is built by __make_dot_bracket", K(fi, "uses-fill"))
 
@@ -1280,6 +1363,8 @@ ROBUST = {
     "conflict-predicate", "conflict-graph", "conflict-pairs", "stems-filter", "stems-run", "region-triple", "fill-width", "fill-trips", "fill-stores",
     "decoder-lifo", "decoder-early-exit", "fcfs-scan-exit", "fcfs-available-reset", "fcfs-mark", "fcfs-choice", "greedy-choice",
     "components-walk", "greedy-perms", "greedy-earlier-exit", "greedy-mark", "product", "product-skip",
+    # fact-level rules (checks/c01e.py): evaluated on every class of a finite input partition
+    "fcfs-first-fit", "fcfs-levels", "conflict-graph-fact", "enumeration-fact", "stems-run-fact", "stems-source", "from-db-fact", "bpseq-pairs-fact", "history-independent", "encoder-result-fact",
 }
 
 
